@@ -364,3 +364,25 @@ def check_defaults(ctx, rule: str):
     fk = repo.find_function(f"{F_QTM}::kruskal_measure")
     ok = "kruskal(*tuple((x[~nans&(y==y_value)]fory_valueiny_values)))" in canon_unparse(fk.node)
     ctx.ob(rule, construct(fk, "kruskal_measure = scipy kruskal over the groups of x by class of y (rank based)"), ok, loc(fk))
+
+
+def check_column_order_free(ctx, rule: str):
+    """The ranking table is built in the order of the selector's feature list (X[features]); the
+    column order of X must not decide ties."""
+    repo = ctx.repo
+    fa = repo.find_function(f"{F_SEL}::apply_measures")
+    ap = [c for c in calls(fa, "apply") if any(unparse(a) == "feature_association" for a in c.args)]
+    ok = len(ap) == 1 and unparse(ap[0].func.value) == "X[features]"
+    ctx.ob(rule, construct(fa, "measures are applied to X[features] (rows of the ranking follow the feature list)"), ok, loc(fa, ap[0] if ap else None),
+           "" if ok else f"columns are taken as `{short(ap[0].func.value) if ap else '?'}`: the order of X's columns decides which of two tied features ranks first")
+    bad = []
+    for fi in selector_functions(repo):
+        if fi.name in ("_print_associations",):
+            continue
+        for n in walk_no_nested(fi.node):
+            if isinstance(n, ast.Attribute) and n.attr == "columns" and isinstance(n.value, ast.Name) and n.value.id == "X":
+                bad.append((fi, n))
+    for fi, n in bad[:3]:
+        ctx.ob(rule, construct(fi, "the column order of X is read"), False, loc(fi, n), "permuting the columns of X can change the selection")
+    if not bad:
+        ctx.ob(rule, "no selector function reads X.columns", True, "")
